@@ -647,6 +647,10 @@ func (p *Printer) wordParts(wps []WordPart, quoted bool) {
 			p.w.WriteString("\\\n")
 			p.line++
 		}
+		if i > 0 {
+			// Never separate the parts of a word, such as "$(foo)<(bar)".
+			p.wantSpace = spaceNotRequired
+		}
 		p.wordPart(wp, next)
 		p.advanceLine(wp.End().Line())
 	}
